@@ -1,7 +1,7 @@
 ID = "C14"
 LEVEL = "other"
-CONTRACT_MODULES = ["contracts.table_rect"]
-FUNCTIONS = ["Table.keys", "Table._select_rows", "Table._select_cols", "Table._copy", "Table.__mul__", "Table.__add__", "Table._append_row@rect", "Table._concatenate_table@rect",
+CONTRACT_MODULES = ["contracts.table_rect", "contracts.table_ctor"]
+FUNCTIONS = ["Table.__init__@unchecked", "Table.keys", "Table._select_rows", "Table._select_cols", "Table._copy", "Table.__mul__", "Table.__add__", "Table._append_row@rect", "Table._concatenate_table@rect",
              "Table.__getitem__@string-argument", "Table.__getitem__@column-of-a-cell-access"]
 RAC = "rac/c14.py"
 RAC_BUDGET = {"quick": 60, "thorough": 600}
@@ -12,7 +12,7 @@ TECHNIQUE = ("contract-based deductive verification of the class invariant Rect 
              "on exhaustive derivation chains with snapshots of every earlier table")
 TRUSTED = ["numpy along the first axis: len(np.concatenate([a] * k)) == k * len(a) (ValueError for k <= 0), len(np.concatenate([a, b])) == len(a) + len(b) "
            "or ValueError, len(np.r_[a, [x]]) == len(a) + 1", "numpy: len(a[rows]) depends on rows and len(a) only; element-wise evaluation of column expressions (Table.__getitem__ with a string: assumed contract)",
-           "Table.__init__: the unchecked constructor stores its arguments as given, the checked one copies dict and list (assumed)",
+           "Table.__init__: the unchecked constructor (verify=False) stores its arguments as given and starts without lookup tables -- proved on the real text as Table.__init__@unchecked (contracts/table_ctor.py); at the call sites inside the derivations it is used as that fact; the CHECKED constructor (dtype tests, set of column lengths) copies dict and list and refuses ragged columns: assumed, run-time checked",
            "z3 / cvc5"]
 ASSUMPTIONS = ["_append_row / _concatenate_table: no claim when a column is missing in the row / numpy refuses a column half way (the loop "
                "raises with columns of two lengths); t * num with a non-integer num is outside the contract",
